@@ -65,6 +65,8 @@ def int_decls(tier='quick') -> List[Decl]:
         out.append(mk('int_%s_san2_nov' % t, 'int', t, sanitizers=[Sanitizer('with', s2)],
                       aux=[n6], derives=['Debug', 'From', 'Into', 'Deref', 'Default'], default='7', default_ref='7',
                       props=['C01', 'C03', 'C05', 'C13']))
+        out.append(mk('int_%s_san_nov_tf' % t, 'int', t, sanitizers=[Sanitizer('with', s1)], aux=[n5],
+                      derives=['Debug', 'TryFrom', 'Into', 'AsRef'], props=['C01', 'C03', 'C05', 'C13']))
         # literal bounds at the extremes
         mn, mx = int_min(t), int_max(t)
         lits = [('min', 'greater_or_equal', mn), ('min1', 'greater', mn), ('max', 'less_or_equal', mx), ('max1', 'less', mx),
@@ -150,6 +152,15 @@ def string_decls(tier='quick') -> List[Decl]:
                 props.append('C11')
             out.append(mk('str_%s_%s' % (cname, vname), 'string', 'String', sanitizers=sans, validators=vals,
                           aux=sn + vn, derives=derives, props=props))
+    # sanitizers without validation, TryFrom instead of From (infallible TryFrom must still sanitize)
+    for chain in chains:
+        if not chain or (tier == 'quick' and len(chain) == 3):
+            continue
+        sans, sn = _string_sans(chain)
+        cname = '_'.join({'trim': 'tr', 'lowercase': 'lo', 'uppercase': 'up', 'with': 'f'}[c] for c in chain)
+        props = ['C01', 'C03', 'C05', 'C13'] + (['C11'] if 'with' not in chain else [])
+        out.append(mk('str_%s_nov_tf' % cname, 'string', 'String', sanitizers=sans, aux=sn,
+                      derives=['Debug', 'TryFrom', 'FromStr', 'AsRef', 'Into'], props=props))
     # custom validation
     v, n = aux.custom('vfn', 's')
     sans, sn = _string_sans(['trim', 'lowercase'])
@@ -171,6 +182,8 @@ def any_decls(tier='quick') -> List[Decl]:
                   aux=['Point', pn, sn], derives=view + ['TryFrom'], props=['C01', 'C03', 'C05', 'C07', 'C13']))
     out.append(mk('any_point_san_nov', 'any', 'Point', sanitizers=[Sanitizer('with', s)],
                   aux=['Point', sn], derives=view + ['From'], props=['C01', 'C03', 'C05', 'C13']))
+    out.append(mk('any_point_san_nov_tf', 'any', 'Point', sanitizers=[Sanitizer('with', s)],
+                  aux=['Point', sn], derives=view + ['TryFrom'], props=['C01', 'C03', 'C05', 'C13']))
     out.append(mk('any_point_custom', 'any', 'Point', sanitizers=[Sanitizer('with', s)], custom_validation=v, custom_error='MyErr',
                   aux=['Point', sn, vn, 'MyErr'], derives=view + ['TryFrom'], props=['C01', 'C03', 'C05', 'C07', 'C13']))
     out.append(mk('any_point_nothing', 'any', 'Point', aux=['Point'], derives=view + ['From'], props=['C01', 'C03', 'C05', 'C13']))
@@ -186,6 +199,8 @@ def any_decls(tier='quick') -> List[Decl]:
                   aux=[pvn, svn], derives=[x for x in gview if x != 'Into'] + ['TryFrom'], props=['C01', 'C03', 'C05', 'C07', 'C13']))
     out.append(mk('any_vec_san_nov', 'any', 'Vec<T>', generics='<T: Ord>', generic_args='<T>', sanitizers=[Sanitizer('with', sv)],
                   aux=[svn], derives=[x for x in gview if x != 'Into'] + ['From'], props=['C01', 'C03', 'C05', 'C13']))
+    out.append(mk('any_vec_san_nov_tf', 'any', 'Vec<T>', generics='<T: Ord>', generic_args='<T>', sanitizers=[Sanitizer('with', sv)],
+                  aux=[svn], derives=[x for x in gview if x != 'Into'] + ['TryFrom'], props=['C01', 'C03', 'C05', 'C13']))
     out.append(mk('any_vec_custom', 'any', 'Vec<T>', generics='<T>', generic_args='<T>', custom_validation=vv, custom_error='MyErr',
                   aux=[vvn, 'MyErr'], derives=gview + ['TryFrom'], props=['C01', 'C03', 'C05', 'C07', 'C13']))
     return out
